@@ -119,6 +119,9 @@ pub fn build_pass_0(
 /// Deepest nesting of macro calls inside macro bodies
 const MAX_MACRO_DEPTH: usize = 128;
 
+/// Longest line a macro body may turn into when its parameters are replaced
+const MAX_EXPANDED_LINE_LENGTH: usize = 65536;
+
 fn pass0_internal(
     segment: Segment,
     context: &Pass0Context,
@@ -200,6 +203,17 @@ fn macro_expand(
                 let string_rep = ops.iter().map(|x| x.to_string());
                 for (num, replacer) in string_rep.enumerate() {
                     raw_line = raw_line.replace(&format!("@{}", num), replacer.as_str());
+                    // `.macro m` / `m @0@0` / `.endm` doubles its argument at every level: stop long
+                    // before the nesting limit lets the text fill the memory
+                    if raw_line.len() > MAX_EXPANDED_LINE_LENGTH {
+                        bail!(
+                            "a line of macro {} is longer than {} characters after its parameters were replaced, {} (called on {})",
+                            macro_name,
+                            MAX_EXPANDED_LINE_LENGTH,
+                            cp,
+                            line
+                        );
+                    }
                 }
                 processed.push((cp.clone(), raw_line));
             }
